@@ -140,6 +140,8 @@ def state_diff(before, after):
                 mism.append((k, f"{before[k]} -> {after.get(k)}"))
         elif k.startswith("setting:"):
             if before[k] != after.get(k):
+                if k.startswith("setting:sharepoint2text") and before[k] == "None":
+                    continue          # a lazily initialised module-level constant (None -> object, once) is not residue
                 mism.append((k, f"{before[k][:80]} -> {str(after.get(k))[:80]}"))
         elif before[k] != after.get(k):
             mism.append((k, "function object replaced and not restored"))
@@ -415,19 +417,89 @@ def memo_search(rel, qual, budget=700):
 
 
 # ------------------------------------------------------------ history search --
+def package_state():
+    """Module-level flags, counters and configuration objects of the package itself, by value (containers -- the caches -- are
+    left out: they may grow; what they hold is the memo obligations' business)."""
+    out = {}
+    for name, mod in sorted(sys.modules.items()):
+        if not name.startswith("sharepoint2text") or ".tests" in name or mod is None:
+            continue
+        for k, v in list(vars(mod).items()):
+            if k.startswith("__"):
+                continue
+            if isinstance(v, (bool, int, float, str, bytes, type(None))):
+                out[f"setting:{name}.{k}"] = repr(v)[:200]
+            elif hasattr(v, "__dataclass_fields__") and not isinstance(v, type):
+                out[f"setting:{name}.{k}"] = repr(v)[:300]
+    return out
+
+
+def corrupted_archives(tmp, per_file=14):
+    """[(label, path)]: the small archive fixtures with a few bytes of their packed data destroyed at several places -- the header
+    still parses, unpacking fails half-way (the paths on which temporary directories and patched configuration must be undone)."""
+    out = []
+    for f in sorted(glob.glob(REPO + "/sharepoint2text/tests/resources/archives/*")):
+        if not os.path.isfile(f) or os.path.getsize(f) > 200_000:
+            continue
+        data = open(f, "rb").read()
+        name = os.path.basename(f)
+        stem, ext = (name[:-7], name[-7:]) if name.endswith(".tar.gz") else os.path.splitext(name)
+        lo, hi = 32, max(40, len(data) - 8)
+        step = max(1, (hi - lo) // per_file)
+        for k, pos in enumerate(range(lo, hi, step)):
+            bad = bytearray(data)
+            for j in range(pos, min(pos + 6, len(bad))):
+                bad[j] ^= 0xFF
+            p = os.path.join(tmp, f"{stem}_damaged{k}{ext}")
+            with open(p, "wb") as fh:
+                fh.write(bytes(bad))
+            out.append((f"{name} with bytes {pos}..{pos + 5} inverted", p))
+        p = os.path.join(tmp, f"{stem}_truncated{ext}")
+        with open(p, "wb") as fh:
+            fh.write(data[: len(data) * 2 // 3])
+        out.append((f"{name} cut after {len(data) * 2 // 3} bytes", p))
+        p = os.path.join(tmp, f"{stem}_intact{ext}")
+        with open(p, "wb") as fh:
+            fh.write(data)
+        out.append((f"{name} (intact)", p))
+    return out
+
+
 def history_search(docs=None, extra_note=""):
     import sharepoint2text
     tmp = tempfile.mkdtemp(prefix="c15_replay_")
     try:
+        probes = [] if docs else corrupted_archives(tmp)
         docs = docs or generated_corpus(tmp)
         paths = [p for (_l, p) in docs]
-        label = {p: l for (l, p) in docs}
+        label = {p: l for (l, p) in docs + probes}
 
         def alone(p):
-            before = global_state()
+            before = dict(global_state(), **package_state())
             d = digest(sharepoint2text, p)
-            return [d, state_diff(before, global_state())]
+            # a generator abandoned half-way (the caller stops iterating) must clean up as well
+            try:
+                ex = sharepoint2text.get_extractor(p)
+                g = ex(io.BytesIO(open(p, "rb").read()), p)
+                next(g, None)
+                g.close()
+            except Exception:  # noqa
+                pass
+            return [d, state_diff(before, dict(global_state(), **package_state()))]
         base = {}
+        # probes: failing / damaged inputs -- state before vs after, and the intact documents extracted right after them
+        followers = [p for (l, p) in probes if l.endswith("(intact)")]
+        for (lab, p) in probes:
+            if p in followers:
+                continue
+            r = forked(lambda p=p: alone(p)).get("ok")
+            if r is None:
+                continue
+            leaks = [m for m in r[1] if m[0] != "open_fds"]
+            if leaks:
+                return {"reproduced": True, "target": lab, "inputs": {"history": [], "document": lab, "bytes_hex": _hex(p)},
+                        "expected": "process-global state (temporary files, module configuration, patched functions) restored after the failed extraction",
+                        "observed": f"{leaks[0][0]}: {leaks[0][1]}", "search": "archive fixtures with damaged packed data"}
         for p in paths:
             r = forked(lambda p=p: alone(p)).get("ok")
             if r is None:
